@@ -562,6 +562,12 @@ func (ex *Exec) applyContract(fr *frame, st *State, reach *Term, fn *ssa.Functio
 	post := &SpecEnv{ex: ex, pkg: pkg, names: se.names, cur: st, old: pre, reach: reach}
 	bindResults(post, fn.Signature, results)
 	for _, e := range fc.Ensures {
+		if strings.Contains(e.Text, "$t") {
+			// a clause about an SSA register of the callee cannot be stated in the caller's terms: it is proved
+			// on the callee but not assumed here (assuming less is sound)
+			ex.warn = append(ex.warn, fmt.Sprintf("ensures clause of %s mentioning a callee register is not used at the call site", cname))
+			continue
+		}
 		ex.vc.Assume(reach, post.evalBool(e.Expr))
 	}
 	if fc.Trusted {
